@@ -62,6 +62,48 @@ CHECKS = {
         technique="Lean 4 theorems about a hand-written model of Pygments' Lexer.get_tokens preprocessing + RegexLexer loop + one matcher per regex of the regenerated rule table; table lemmas (rules_known, cover_ok, opts_known) over the regenerated tables; exact model-vs-implementation comparison of token lists and of every rule's compiled regex; property oracle on the real lexer",
         text="Kernel-checked for ALL texts (lists of Unicode scalar values) about the model: the lexer loop always terminates with a token list (every rule application consumes >= 1 character, no empty match, no missing state), the token texts of get_tokens_unprocessed concatenate to exactly the input, get_tokens' token texts concatenate to the preprocessed input, and no Error token is ever emitted (for any text, not only accepted programs). The literal property is false on the pinned code (Pygments defaults strip a leading U+FEFF, leading and trailing newlines and normalise CR): proved instead under the decidable guard Clean, which is shown to be exact (no_text_lost_iff), with kernel-checked counterexamples; the four defect shapes are recorded as known findings and replayed on the real lexer on every run.",
         note=COMMON_NOTE + "Pygments' RegexLexer engine, Lexer.get_tokens and Python's re module are MODELLED by hand, not verified: the tie is the per-run differential comparison (token lists on generated texts incl. exhaustive enumeration over the delimiter alphabet, every rule's compiled regex object vs the Lean matcher at random positions) plus table lemmas that fail to build when a regex, flag, state action or lexer option outside the modelled set appears. Unicode \\w/\\d membership tables are read from the running interpreter's re. words(): regex_opt's alternation order is argued irrelevant (keywords are ASCII word-character strings followed by \\b), not proved. Lone surrogates and bytes input are outside the model (surrogates are exercised on the real lexer only)."),
+    "C11": dict(
+        level="other", design="4/C11",
+        technique="Lean 4 theorems about an abstract protocol machine (K3) for the id(graph)-keyed memo table of graph_utils.py under ALL histories of "
+                  "alloc / mutate / clear / query (lookup, store sections) / drop with recyclable ids, plus two small object models (parameter `indent`, compiler object); "
+                  "trace validation: real convert() runs recorded by wrappers installed from outside are replayed through the Lean machine section by section and judged by the "
+                  "Lean discipline predicates; history exploration of the real code: every call after a generated history in a long-lived process is compared byte for byte "
+                  "with the same call alone in a fresh process, differences are shrunk and diagnosed",
+        text="Kernel-checked for ALL histories, graph ids (recycled or not), keys, arguments, contents and for an arbitrary search function: (cache_fresh) if every (re)allocation and "
+             "mutation of a graph is followed by a clear before the next query and no key is queried with two argument sets between clears, every value the table returns is the value "
+             "recomputed from the graph as it is now, from ANY earlier state of the table, and no KeyError; (call_independent_of_memo) a call whose queries all follow a clear of the "
+             "same id within the call gives identical outputs (values and hit/miss) from any two states of the table, in particular after any history and in a fresh process; "
+             "(tidy_prefix_then_fresh) the same holds for any call if the history before it left every table empty; counterexample theorems show that neither guard can be dropped "
+             "(an id recycled after an abandoned convert() answers with the dead graph's value). print_indent_only: printing writes nothing but `indent`, the op keeps its meaning and "
+             "compares equal; compile_reset: compile() on a reused object gives the results of a fresh object for every attribute it resets (macro_resolution_order is not one: "
+             "counterexample). On every run the recorded real histories (quick: ~10^4 sections) must agree with the machine and every recorded call must be Isolated or follow a Tidy "
+             "history - so the memo table cannot make a result depend on the history; all other process-wide state is covered by the exploration only: quick 100 histories x <= 6 calls, "
+             "thorough 5000 x <= 20, with failing inputs, abandoned decompilations, repeated inputs, reused compiler objects, gc and allocation churn, the decompile CLI helpers, fresh "
+             "processes with other hash seeds.",
+        note="K3: the machine is an abstraction of the locking/clearing protocol, not a model of the decompiler; the graph search `_impl` is a parameter. Trusted: Lean 4.33 kernel (axioms "
+             "audited per run), the instrumentation in harness/impl_cache.py (monkeypatches; completeness of the mutation hooks is cross-checked by graph fingerprints at every query), "
+             "the driver's JSON glue. NOT modellable and covered by exploration only: which ids CPython recycles (allocator state; id reuse is provoked, and observed in every run, but not "
+             "controlled), the ANTLR runtime's class-level ATN/DFA caches (known finding: they change the MESSAGE of ParseErrors), igraph's internals, hash-seed dependent iteration "
+             "orders. Known findings on the current tree: cli read_routines module-level counter, macro_resolution_order kept for SsbScript-marked sources, convert() twice on one "
+             "decompiler object, ParseError message; fixed during this round (16ab1ed): stale memo entry under a recycled id after an abandoned convert()."),
+    "C12": dict(
+        level="other", design="4/C12",
+        technique="Lean 4 theorem about the same memo-table machine shared by any number of threads under EVERY interleaving of the atomic sections the real functions consist of "
+                  "(lock;lookup;unlock - compute - lock;store;unlock - lock;clear;unlock, ids recyclable between threads); trace validation of recorded concurrent runs against the "
+                  "threaded Lean machine; schedule exploration of the real code: a deterministic PRNG-driven scheduler built on a sys.settrace line hook (schedule = replayable switch "
+                  "list) and free running threads with a 1 microsecond switch interval, each run in a fresh process, every call compared with the same call alone",
+        text="Kernel-checked (interleave_safe) for any number of threads, all programs and ALL schedules: if every thread follows the clear protocol on the graphs it owns, every query "
+             "returns the value recomputed from the thread's own graph as it is at that moment and no section raises KeyError - the unlocked compute and the store 'after the cache may "
+             "have been cleared in the meantime' are harmless, and recycled ids between threads are harmless; interleave_stale_counterexample shows the result of a thread that queries "
+             "before clearing depends on the schedule. Real concurrent runs are replayed through the machine on every run (events must agree). The property itself (each call returns "
+             "what it returns alone, no foreign exception) is explored: quick ~20 scheduler runs (~10^6 yield points, ~10^5 thread switches) + ~20 free runs with 2-8 threads, thorough "
+             "~500 + ~400; sequential-in-process and fresh-process references.",
+        note="K3 abstraction as for C11; thread-private graphs (ownership) is an assumption of the theorem that the recorded runs are checked against (an op on a graph of another "
+             "thread would show as an ill-formed step). NOT modellable here, exploration only: the GIL's switch points inside C code (igraph, dict operations are atomic for the "
+             "scheduler), CPython's id recycling, the ANTLR runtime's shared ATN/DFA caches (half of the scheduler runs also trace the antlr4 ATN simulators so that switches happen "
+             "inside adaptivePredict/addDFAState; known finding: the MESSAGE of a ParseError depends on which thread parsed first). The deterministic scheduler serialises threads: it "
+             "explores interleavings at the granularity of traced lines of graph_utils, graph_minimizer, ssb_decompiler, explorerscript_reader, macro, compiler utils, ssb_compiler, "
+             "source_map only."),
 }
 
 PENDING_REASON = "check not built yet in this round (design in DESIGN.md §4); will be claimed once its Lean model and correspondence exist"
